@@ -8,6 +8,7 @@ import (
 
 	"github.com/douban/gobeansdb/cmem"
 	"github.com/douban/gobeansdb/utils"
+	"github.com/douban/gobeansdb/verifhook"
 )
 
 type dataChunk struct {
@@ -66,6 +67,7 @@ func (dc *dataChunk) AppendRecordGC(wrec *WriteRecord) (offset uint32, err error
 	}
 	dc.Unlock()
 
+	verifhook.Point("fs.write.before", dc.path, offset, size)
 	_, err = dc.gcWriter.append(wrec)
 	if err != nil {
 		logger.Fatalf("fail to append, stop! err: %v", err)
@@ -75,6 +77,7 @@ func (dc *dataChunk) AppendRecordGC(wrec *WriteRecord) (offset uint32, err error
 		logger.Fatalf("write data fail, stop! err: %v", err)
 		return 0, err
 	}
+	verifhook.Point("fs.write.after", dc.path, offset, size)
 	return
 }
 
@@ -93,10 +96,12 @@ func (dc *dataChunk) flush(w *DataStreamWriter, gc bool) (flushed uint32, err er
 		dc.Lock() // because append may change the slice
 		wrec := dc.wbuf[i]
 		dc.Unlock()
+		verifhook.Point("dc.flush.append.before", dc.path, wrec.pos.Offset, wrec.rec.Payload.RecSize)
 		_, err := w.append(wrec)
 		if err != nil {
 			logger.Fatalf("fail to append, stop! err: %v", err)
 		}
+		verifhook.Point("dc.flush.appended", dc.path, wrec.pos.Offset, wrec.rec.Payload.RecSize)
 		size := wrec.rec.Payload.RecSize
 		flushed += size
 		if !gc && wrec.rec.Payload.Ver > 0 {
@@ -109,10 +114,12 @@ func (dc *dataChunk) flush(w *DataStreamWriter, gc bool) (flushed uint32, err er
 		return 0, err
 	}
 
+	verifhook.Point("dc.flush.written", dc.path, n)
 	dc.Lock()
 	tofree := dc.wbuf[:n]
 	dc.wbuf = dc.wbuf[n:]
 	dc.Unlock()
+	verifhook.Point("dc.flush.detached", dc.path, n)
 	for _, wrec := range tofree {
 		wrec.rec.Payload.Free()
 	}
@@ -179,6 +186,8 @@ func (dc *dataChunk) Truncate(size uint32) error {
 	if size == 0 {
 		return utils.Remove(path)
 	}
+	verifhook.Point("fs.truncate.before", path, size)
+	defer verifhook.Point("fs.truncate.after", path, size)
 	return os.Truncate(path, int64(size))
 }
 
